@@ -141,7 +141,8 @@ package components
 //@   deterministic by-contract the selection predicate is a function of the IP
 //@   ensures def: res == selIncludes(ip)
 
-//@ chaninv map[string]*FileIP sel-tuple-members-valid: $v != nil && (forall k string :: k in $v ==> validIP($v[k]))
+//@ ghost func selTupleKey(k string) bool
+//@ chaninv map[string]*FileIP sel-tuple-members-valid: $v != nil && (forall k string :: k in $v ==> validIP($v[k]) && selTupleKey(k))
 
 //@ func (*IPSelectorSync).Out(p, name) (res)
 //@   props C19
@@ -151,7 +152,7 @@ package components
 //@ func (*IPSelectorSync).recvOneEach(p) (ips, ok)
 //@   props C19
 //@   requires wf: wfInPorts(p.inPorts)
-//@   modifies *
+//@   modifies chanrecv, fresh, cells
 //@   ensures one-receive-per-port[C19]: forall k string :: k in old(p.inPorts) ==> chanRecvN(old(p.inPorts)[k].Chan) == old(chanRecvN(p.inPorts[k].Chan)) + ite(old(chanRecvN(p.inPorts[k].Chan)) < chanTotal(old(p.inPorts)[k].Chan), 1, 0)
 //@   ensures all-or-nothing[C19]: ok <==> (forall k string :: k in old(p.inPorts) ==> old(chanRecvN(p.inPorts[k].Chan)) < chanTotal(old(p.inPorts)[k].Chan))
 //@   ensures aligned-items-in-arrival-order[C19]: ips != nil && (forall k string :: k in old(p.inPorts) && old(chanRecvN(p.inPorts[k].Chan)) < chanTotal(old(p.inPorts)[k].Chan) ==> k in ips && ips[k] == chanInAt(old(p.inPorts)[k].Chan, old(chanRecvN(p.inPorts[k].Chan))))
@@ -175,19 +176,20 @@ package components
 
 //@ func (*IPSelectorSync).syncRead$1()
 //@   props C19
-//@   requires wf: wfInPorts(p.inPorts) && ipSetChan != nil
+//@   requires wf: wfInPorts(p.inPorts) && ipSetChan != nil && (forall k string :: k in p.inPorts ==> selTupleKey(k))
 //@   modifies *
-//@   atsend passes-on-only-complete-aligned-tuples[C19]: ok && $v == ips && $ch == ipSetChan
-//@   loop 0 invariant stable: p == old(p) && ipSetChan == old(ipSetChan) && ipSetChan != nil && p.inPorts == old(p.inPorts) && wfInPorts(p.inPorts) && (ok ==> ips != nil && (forall k string :: k in ips ==> validIP(ips[k])))
+//@   atsend passes-on-only-complete-aligned-tuples[C19]: ok && $ch == ipSetChan
+//@   loop 0 invariant stable: p == old(p) && ipSetChan == old(ipSetChan) && ipSetChan != nil && p.inPorts == old(p.inPorts) && wfInPorts(p.inPorts) && (forall k string :: k in p.inPorts ==> selTupleKey(k)) && (ok ==> ips != nil && (forall k string :: k in ips ==> validIP(ips[k]) && k in p.inPorts))
 
+//@ define selOutsOK(p *IPSelectorSync) bool = p.outPorts != nil && (forall k string :: selTupleKey(k) ==> k in p.outPorts) && (forall o string :: o in p.outPorts ==> p.outPorts[o] != nil && wfOutPort(p.outPorts[o]))
 //@ func (*IPSelectorSync).Run(p)
 //@   props C19
-//@   requires wf: p.outPorts != nil && wfInPorts(p.inPorts) && (forall o string :: o in p.outPorts ==> p.outPorts[o] != nil && wfOutPort(p.outPorts[o]))
+//@   requires wf: wfInPorts(p.inPorts) && selOutsOK(p)
 //@   modifies *
 //@   atcall (*OutPort).Send forwards-only-tuples-whose-members-all-pass[C19]: forall k string :: k in ips ==> selIncludes(ips[k])
 //@   atcall (*OutPort).Send member-goes-to-the-out-port-named-like-its-in-port[C19]: $arg1 == ips[iname] && $arg0 == p.outPorts[iname]
-//@   loop 0 invariant stable: p == old(p) && p.outPorts == old(p.outPorts) && p.outPorts != nil
+//@   loop 0 invariant stable: p == old(p) && p.outPorts == old(p.outPorts) && selOutsOK(p)
 //@   loop 1 invariant passed-so-far: forall k string :: $visited[k] ==> k in ips && selIncludes(ips[k])
-//@   loop 1 invariant stable: p == old(p) && p.outPorts == old(p.outPorts) && ips != nil
+//@   loop 1 invariant stable: p == old(p) && p.outPorts == old(p.outPorts) && selOutsOK(p) && ips != nil && (forall k string :: k in ips ==> validIP(ips[k]) && selTupleKey(k))
 //@   loop 2 invariant all-pass: forall k string :: k in ips ==> selIncludes(ips[k])
-//@   loop 2 invariant stable: p == old(p) && p.outPorts == old(p.outPorts) && ips != nil
+//@   loop 2 invariant stable: p == old(p) && p.outPorts == old(p.outPorts) && selOutsOK(p) && ips != nil && (forall k string :: k in ips ==> validIP(ips[k]) && selTupleKey(k))
